@@ -160,11 +160,11 @@ class Outcome(object):
         self.info = {}
 
 
-def compile_execs(rules, request, shared=True):
+def compile_execs(rules, request):
     """Executions for the requested predicates, the way tools/run_in_terminal.RunMany
     builds them (one LogicaProgram, one FormattedPredicateSql per predicate)."""
     with drive.quiet():
-        prog = universe.LogicaProgram(copy.deepcopy(rules))
+        prog = universe.LogicaProgram(rules)
         exs = []
         for p in request:
             prog.FormattedPredicateSql(p)
@@ -246,13 +246,10 @@ def check_program(text, request):
     if fails or len(request) == 1:
         o.info['result'] = r['result']
         return o
-    for p in request:
-        try:
-            e1 = compile_execs(rules, [p])
-        except Exception as e:
-            o.inconclusive = 'compile_single:' + drive.exc_frame(e)
-            return o
-        sp1, r1 = run_real(e1)
+    for p, e in zip(request, exs):
+        # asking for p alone: the same execution object on its own (RunMany builds
+        # exactly the executions that Run would build one at a time)
+        sp1, r1 = run_real([e])
         f1, inc1 = judge_run(sp1, r1, 'single:')
         if inc1:
             o.inconclusive = inc1
